@@ -11,8 +11,8 @@
 #include <stdlib.h>
 #include <string.h>
 
-#define VP_MAXKV 512
-static char     vp_keys[VP_MAXKV][64];
+#define VP_MAXKV 2048
+static char     vp_keys[VP_MAXKV][96];
 static uint64_t vp_vals[VP_MAXKV];
 static int      vp_nkv;
 
@@ -21,6 +21,9 @@ vp_load(const char *path)
 {
 	FILE *f = fopen(path, "r");
 	char  line[256];
+	/* a sanitizer report ends the process without flushing stdio: keep what the
+	 * driver printed before the failing call */
+	setvbuf(stdout, NULL, _IOLBF, 0);
 	if (f == NULL) {
 		fprintf(stderr, "cannot open %s\n", path);
 		exit(2);
@@ -60,9 +63,32 @@ vp_u64(const char *k, uint64_t dflt)
 static uint64_t
 vp_idx(const char *k, size_t i, uint64_t dflt)
 {
-	char b[96];
+	char b[128];
 	snprintf(b, sizeof(b), "%s[%zu]", k, i);
 	return vp_u64(b, dflt);
+}
+
+/* key built with a printf format, e.g. vp_fmt(0, "vp_in.a_iov[%u].iov_len", i) */
+#include <stdarg.h>
+static uint64_t
+vp_fmt(uint64_t dflt, const char *fmt, ...)
+{
+	char    b[128];
+	va_list ap;
+	va_start(ap, fmt);
+	vsnprintf(b, sizeof(b), fmt, ap);
+	va_end(ap);
+	return vp_u64(b, dflt);
+}
+static bool
+vp_hasf(const char *fmt, ...)
+{
+	char    b[128];
+	va_list ap;
+	va_start(ap, fmt);
+	vsnprintf(b, sizeof(b), fmt, ap);
+	va_end(ap);
+	return vp_has(b);
 }
 
 static int vp_fail_count;
